@@ -32,9 +32,10 @@ func checkC18(p *Program, r *Result) {
 		"(C18.a) no log.Fatal/os.Exit/panic call; (C18.b) every integer decoded from the bag (header length, field length, data length, connection id, time) is upper-bounded on every path before it " +
 		"is used as a slice bound, index or allocation size, and fixed-offset reads of header values are preceded by a length test (bounded-input engine E2 + minimum-length rule); " +
 		"(C18.c) errors of source reads, of MCAP writer calls (including the deferred Close that writes the summary), of callbacks and of database iteration (rows.Err after the rows.Next loop) are consulted and propagated (E3); " +
+		"(C18.q) the package with which getSchemas qualifies an unqualified field type is data-dependent on the type name of the definition being scanned; " +
 		"(C18.u) a key deleted from the connection header map is not looked up afterwards, directly or in a helper that receives the map (such a lookup is always empty); " +
 		"(C18.d) each converter builds the Message with LogTime and PublishTime from the same converted time value and Data from the record payload."
-	r.NotDecided = []string{"message-for-message fidelity, ordering and schema assembly (run-time)", "behaviour of go-sqlite3 and the lz4/bzip2 decoders"}
+	r.NotDecided = []string{"message-for-message fidelity, ordering and the text of assembled schemas (run-time)", "behaviour of go-sqlite3 and the lz4/bzip2 decoders"}
 	r.rule("C18.a", "no process-exit / panic call reachable from the converters", 10)
 	r.rule("C18.b", "bag-derived integers are bounded before slice bounds, indexes and allocation sizes", 8)
 	r.rule("C18.c", "read, writer, callback and database-iteration errors are consulted and propagated", 30)
@@ -81,6 +82,8 @@ func checkC18(p *Program, r *Result) {
 	for _, fn := range fns {
 		checkMessageLiteral(p, r, fn)
 	}
+	r.rule("C18.q", "relative ROS 2 field types are qualified with the package of the definition they occur in", 1)
+	checkRos2Qualification(p, r, "C18.q")
 	r.rule("C18.u", "a deleted header key is not looked up afterwards", 1)
 	checkDeletedKeyLookups(p, r, "C18.u", fns)
 	// C18.k: header fields are "key=value" where the value may itself contain '=' (message definitions with
